@@ -624,21 +624,22 @@ fn probe(id: usize, r: &mut Rng, max: usize) -> String {
                 }
             }
             sp1 = thin(r, &sparse);
-            let top = sp1.verts.iter().max().copied().unwrap_or(0);
-            for _ in 0..r.below(3) {
-                let extra = match r.below(3) {
-                    0 => top.saturating_add(1 + r.below(3)),
-                    1 => r.below(top.saturating_add(2)),
-                    _ => *r.pick(&gen::SPARSE_POOL),
-                };
-                let _ = sp1.verts.insert(extra);
-            }
-            if r.chance(0.3) {
+            if r.chance(0.5) {
                 // drop the vertices that have lost all their arcs
                 let used: std::collections::BTreeSet<usize> = sp1.arcs.keys().flat_map(|&(a, b)| [a, b]).collect();
                 if !used.is_empty() {
                     sp1.verts.retain(|x| used.contains(x));
                 }
+            }
+            // and admit up to two new ones: above the largest id of D, in a gap, from the pool
+            let top = sparse.verts.iter().max().copied().unwrap_or(0);
+            for _ in 0..r.below(3) {
+                let extra = match r.below(4) {
+                    0 | 1 => top.saturating_add(1 + r.below(3)),
+                    2 => r.below(top.saturating_add(2)),
+                    _ => *r.pick(&gen::SPARSE_POOL),
+                };
+                let _ = sp1.verts.insert(extra);
             }
         }
         match v {
